@@ -1549,7 +1549,12 @@ def run(ck: common.Check):
                "scales 2^-300..2^300, float32, 8 integer dtypes) classified by explicit margins on the exact entries; ellipsoid_float (differential only): A=B^T B+I "
                "vs asymmetry>=0.1 or an eigenvalue<=-0.1, junk under the mask; dispatch: all 2^5 configs x 24 declarations (track_node_props None / {} / each key alone / both keys in BOTH insertion orders, the property dicts following the same order) x "
                "invalid-data sets x data present/absent; lineage_masked: all digraphs on <=3 nodes x every missing mask x "
-               "labellings of the rest + random forests with lone unlabelled nodes; non-trivial = non-empty input / some flag on")
+               "labellings of the rest + random forests with lone unlabelled nodes; reader_byteorder: graphs over {0, 1, byteswapped 1} "
+               "(ALL id lists <=2 x edge lists <=1 under the four byte-order pairs of zarr format 2 + one of format 3; 3 ids x <=1 edge and 2 ids x 2 edges under one "
+               "rotating (format, node order, edge order) combination; thorough: <=3 x <=1 under all 8 combinations, 2 edges under the v2 pairs), hand-picked graphs "
+               "(valid path, absent node whose byteswapped image is a node, self / repeated edge, dtype limits) x 8 dtypes x every combination, random graphs at the "
+               "dtype limits biased to mixed orders in format 2; each read through read_to_memory with structure validation on and off and through geff.read / "
+               "GeffReader.build + validate_data (structure validation alternating); non-trivial = non-empty input / some flag on")
     cases = list(corpus())
     n_corpus = len(cases)
     if ck.quick:   # <=3 ids x <=2 edges, and <=2 ids x <=3 edges (thorough: <=3 x <=3)
@@ -1676,9 +1681,14 @@ def run(ck: common.Check):
         "entries are outside the theorems (differential stream ellipsoid_float)",
         "radii: the model sees a float only through its binary64 bit pattern and the comparison < 0 (NaN and -0.0 are not negative)",
         "edge arrays have shape (E, 2) and the same dtype as the node ids (InMemoryGeff invariant, checked by structure validation)",
-        "array layout (read-only, non-contiguous, Fortran order, non-native byte order) is beneath the model; it is varied in "
-        "the correspondence (kind history); numpy 2.5's np.isin raises TypeError for big-endian uint64 arrays holding values "
-        ">= 2^63 (known finding C12:bigendian-uint64-isin-typeerror)",
+        "array layout in memory (read-only, non-contiguous, Fortran order, non-native byte order of an in-memory array) is "
+        "beneath the model; it is varied in the correspondence (kind history); numpy 2.5's np.isin raises TypeError for "
+        "big-endian uint64 arrays holding values >= 2^63 (known finding C12:bigendian-uint64-isin-typeerror)",
+        "byte order of the STORED id arrays (per array, nodes/ids and edges/ids independently): modelled in GeffModel/ByteOrder.lean "
+        "as 'zarr + numpy hand out every item decoded by the byte order recorded for its own array' (proved value preserving for "
+        "every width, signedness and pair of byte orders: GeffProps.C12ByteOrder); that zarr records and applies the byte order "
+        "this way (format 2: dtype string; format 3: bytes codec) is an assumption tied by the stream reader_byteorder, which "
+        "feeds the model the raw chunk bytes and the recorded byte order read back from the store under test",
     ]
 
 
